@@ -139,8 +139,8 @@ class err_handler(object):
         #logger.debug('add_isa loop')
         self.children.append(err_isa(self, seg_data, src))
         self.cur_isa_node = self.children[-1]
-        # the groups and sets of the interchange before are not open any more
-        self.cur_gs_node = None
+        # the sets of the interchange before are not open any more
+        # (its last group stays the one the acknowledgement is addressed from)
         self.cur_st_node = None
         self.cur_seg_node = self.cur_isa_node
         self.seg_node_added = True
@@ -343,6 +343,9 @@ class err_handler(object):
     def close_gs_loop(self, node, seg, src):
         """
         """
+        if self.cur_gs_node is None:
+            # GE of a group that was never opened in this interchange: nothing to close
+            return
         self.cur_gs_node.close(node, seg, src)
         self.cur_seg_node = self.cur_gs_node
         self.seg_node_added = True
@@ -350,6 +353,9 @@ class err_handler(object):
     def close_st_loop(self, node, seg, src):
         """
         """
+        if self.cur_st_node is None:
+            # SE of a set whose ST found no place in the map: there is no set to close
+            return
         self.cur_st_node.close(node, seg, src)
         self.cur_seg_node = self.cur_st_node
         self.seg_node_added = True
